@@ -7,6 +7,7 @@
 //!
 //! With the feature off, none of this code exists and the library is unchanged.
 
+use std::cell::Cell;
 use std::cell::RefCell;
 use std::future::Future;
 use std::pin::pin;
@@ -22,6 +23,9 @@ pub enum Site {
     /// The thread has finished looking up the per-key mutex, released the global lock
     /// and is about to lock, try to lock or enqueue on the per-key mutex
     Key,
+    /// The thread releases a per-key mutex, or wakes a thread waiting for one, while it does *not* hold
+    /// the global lock. The library never does this; the point exists so that a harness notices when it does.
+    Unprotected,
 }
 
 /// Callbacks a harness installs on a thread to get control at hook points
@@ -35,6 +39,35 @@ pub trait Hook: Send + Sync {
 
 thread_local! {
     static HOOK: RefCell<Option<Arc<dyn Hook>>> = const { RefCell::new(None) };
+    /// How many guards of global locks the current thread holds
+    static IN_GLOBAL: Cell<usize> = const { Cell::new(0) };
+}
+
+/// Marks the time during which the current thread holds the global lock of a container.
+/// It is a field of the guard of that lock, declared before the lock guard itself, so it ends just before the lock is released.
+pub(crate) struct GlobalSection(());
+
+impl GlobalSection {
+    #[inline]
+    pub(crate) fn enter() -> Self {
+        IN_GLOBAL.with(|c| c.set(c.get() + 1));
+        GlobalSection(())
+    }
+}
+
+impl Drop for GlobalSection {
+    #[inline]
+    fn drop(&mut self) {
+        IN_GLOBAL.with(|c| c.set(c.get().saturating_sub(1)));
+    }
+}
+
+/// Report [Site::Unprotected] unless the current thread holds a global lock. No-op on threads without a hook.
+#[inline]
+pub(crate) fn unprotected_point() {
+    if IN_GLOBAL.with(|c| c.get()) == 0 {
+        yield_point(Site::Unprotected);
+    }
 }
 
 /// Install (or with `None` remove) the hook of the current thread
@@ -66,9 +99,11 @@ struct FlagWaker {
 impl Wake for FlagWaker {
     fn wake(self: Arc<Self>) {
         self.woken.store(true, Ordering::SeqCst);
+        unprotected_point();
     }
     fn wake_by_ref(self: &Arc<Self>) {
         self.woken.store(true, Ordering::SeqCst);
+        unprotected_point();
     }
 }
 
